@@ -1091,7 +1091,7 @@ func (dsc *dataStoreCommand) flush() {
 // FLUSHALL: empties every database as one step. All database locks are held
 // while clearing; the global lock orders this against other commands that
 // need more than one database (inside EXEC it is already held, see fnExec).
-func (dsc *dataStoreCommand) flushAll(dss *dataStoreSet, inExec bool) {
+func (dsc *dataStoreCommand) flushAll(cs *clientState, inExec bool) {
 	if !inExec {
 		simBeforeLock(&multiDataStoreLock, "multiDataStoreLock")
 		multiDataStoreLock.Lock()
@@ -1101,13 +1101,13 @@ func (dsc *dataStoreCommand) flushAll(dss *dataStoreSet, inExec bool) {
 
 	// (one list for both steps: a database created in between by another
 	// connection's SELECT is not locked and must not be cleared)
-	dbs := dss.allDbs()
+	dbs := cs.dss.allDbs()
 	for _, ds := range dbs {
 		if ds == dsc.ds {
 			dsc.lock()
 			defer dsc.unlock()
 		} else {
-			other := ds.newDataStoreCommand()
+			other := cs.lockHandle(ds)
 			other.lock()
 			defer other.unlock()
 		}
